@@ -75,6 +75,7 @@ def run(tier='quick'):
             chk.violation(P2, '%s|children kept on delete' % en, en,
                           '%s: no DELETE trigger on Playlist removes the child lists' % en)
 
+    c08.chain_trigger_siblings(prog, chk, P2)
     # ---- P3 ------------------------------------------------------------------------------
     walkers = [(V2 + '(anon)::sort_ids', 'PLAYLIST_NO_NEXT_LIST_ID'),
                (V2 + 'playlist_entity_table::get_for_list', 'PLAYLIST_ENTITY_NO_NEXT_ENTITY_ID')]
